@@ -315,6 +315,28 @@ def World.incDeletes (w : World) : List Del := w.dels.foldl updateDeletes []
 /-- Corpus.deletes read back from the `deleted|` rows (corpus.go:509 initDeletes) -/
 def World.loadDeletes (w : World) : List Del := sortBy delRowLe w.dels
 
+/-- is `id` the id of a claim that was delivered? -/
+def World.knownId (w : World) (id : Nat) : Bool :=
+  w.claims.any (fun c => c.id == id) || w.dels.any (fun d => d.deleter == id)
+
+/-- delivery of an attribute claim (ids grow with arrival; `none`: refused) -/
+def World.addClaim (w : World) (c : Claim) : Option World :=
+  if c.id ≤ w.maxId then none
+  else some { w with claims := w.claims ++ [c], maxId := c.id }
+
+/-- delivery of a delete claim: its target exists already (it was delivered before: the index would
+otherwise park the claim until the target arrives); a delete claim on a permanode is a claim row of
+that permanode as well (receive.go:880) -/
+def World.addDelete (w : World) (d : Del) : Option World :=
+  if d.deleter ≤ w.maxId then none
+  else
+    match d.target with
+    | .cl id =>
+      if w.knownId id then some { w with dels := w.dels ++ [d], maxId := d.deleter } else none
+    | .pn p =>
+      some { w with claims := w.claims ++ [⟨d.deleter, d.rk, p, d.signer, .delete, [], [], d.date⟩],
+                    dels := w.dels ++ [d], maxId := d.deleter }
+
 inductive Mode where
   | idx | inc | load
 deriving DecidableEq, Repr
@@ -349,12 +371,17 @@ def signerOk (f : Option Nat) (c : Claim) : Bool :=
   | none => true
   | some s => decide (c.signer = s)
 
+/-- attrFilter of AppendClaims: `none` (the empty string) lets every claim through -/
+def attrFilterOk (a : Option Bytes) (c : Claim) : Bool :=
+  match a with
+  | none => true
+  | some x => decide (c.attr = x)
+
 /-- Index.AppendClaims without a corpus (index.go:881): the rows of the permanode (of the signer) in
 key order, minus deleted claims, minus other attributes (`attrFilter = none`: all) -/
 def World.idxAppendClaims (w : World) (p : Nat) (f : Option Nat) (attrFilter : Option Bytes) : List Claim :=
   (w.rows.filter (fun c => decide (c.pn = p))).filter (fun c =>
-    signerOk f c && !w.idxIsDeleted (.cl c.id) &&
-      (match attrFilter with | none => true | some a => decide (c.attr = a)))
+    signerOk f c && !w.idxIsDeleted (.cl c.id) && attrFilterOk attrFilter c)
 
 /-- Corpus.AppendClaims (corpus.go:1375) -/
 def World.corpusAppendClaims (w : World) (m : Mode) (p : Nat) (f : Option Nat) (attrFilter : Option Bytes) :
@@ -363,8 +390,7 @@ def World.corpusAppendClaims (w : World) (m : Mode) (p : Nat) (f : Option Nat) (
   | none => []
   | some pm =>
     pm.claims.filter (fun c =>
-      !w.isDeleted m (.cl c.id) && signerOk f c &&
-        (match attrFilter with | none => true | some a => decide (c.attr = a)))
+      !w.isDeleted m (.cl c.id) && signerOk f c && attrFilterOk attrFilter c)
 
 /-- the attribute value on the index without corpus: location.go permanodeLocation + permAttr.get,
 as repaired by f282908: AppendClaims, sort by date, claimsIntfAttrValue with the owner's ref set -/
@@ -374,6 +400,34 @@ def World.idxAttrValue (w : World) (p : Nat) (attr : Bytes) (at_ : Option Nat) (
 /-- the same before f282908: the rows folded in key order -/
 def World.idxAttrValueOld (w : World) (p : Nat) (attr : Bytes) (at_ : Option Nat) (now : Nat) (f : Option Nat) : Bytes :=
   claimsIntfAttrValue (w.idxAppendClaims p f none) attr at_ now (filtOf f)
+
+/-- one claim in the fold of search/describe.go populatePermanodeFields (:833), for one attribute:
+values are a set of non-empty strings – set: clear, then add; add: skip "" and values already
+present; del: as everywhere -/
+def describeStep (vs : List Bytes) (k : Kind) (v : Bytes) : List Bytes :=
+  match k with
+  | .set => if v = [] then [] else [v]
+  | .add => if v = [] then vs else if v ∈ vs then vs else vs ++ [v]
+  | .del => if v = [] then [] else vs.filter (fun w => decide (w ≠ v))
+  | .delete => vs
+
+/-- Describe's time bound: none for the zero time -/
+def notAfter (at_ : Option Nat) (c : Claim) : Bool :=
+  match at_ with
+  | none => true
+  | some t => decide (c.date ≤ t)
+
+/-- `DescribedPermanode.Attr[attr]` for a describe request of permanode `p` at time `at_` (zero: ALL
+claims, also future ones – documented at DescribeRequest.At) by a search handler whose owner is
+signer `s`: index.AppendClaims (with or without corpus) for the owner, sort.Sort(ClaimsByDate), fold -/
+def World.describe (w : World) (m : Mode) (p : Nat) (attr : Bytes) (at_ : Option Nat) (s : Nat) : List Bytes :=
+  let claims :=
+    match m with
+    | .idx => w.idxAppendClaims p (some s) none
+    | _ => w.corpusAppendClaims m p (some s) none
+  ((sortByDate claims).filter (fun c =>
+      decide (c.attr = attr) && notAfter at_ c)).foldl
+    (fun vs c => describeStep vs c.kind c.val) []
 
 /-- Corpus.PermanodeAttrValue (corpus.go:1254) on a PermanodeMeta -/
 def pmAttrValue (pm : PM) (attr : Bytes) (at_ : Option Nat) (now : Nat) (f : Option Nat) : Bytes :=
